@@ -152,6 +152,9 @@ func (s *sim) violation(class, detail string, nd *node, in msg) {
 	}
 	s.violated = true
 	w := witness{Case: s.idx, Config: s.c.String(), Input: in.String(), Detail: detail, Steps: s.steps}
+	if s.sysDevs != nil {
+		w.Detail += fmt.Sprintf(" [systematic schedule: FIFO base with deviations %v]", s.sysDevs)
+	}
 	if nd != nil {
 		w.Validator, w.Height, w.Round = nd.i, uint(nd.h), int(nd.round)
 		if l := s.hl(nd, nd.h); l != nil {
